@@ -58,6 +58,74 @@ def table_stage(ctx: Ctx, dialects, spark_exec=None):
     return table
 
 
+def sql_level_stage(ctx: Ctx):
+    """cheap cross-dialect obligation (no engine): for every level creator instance of the C16 grid that two dialects both
+    support, the two emitted conditions must be `same_modulo synonyms` (equal after `strip`, up to the verified table of
+    function-name synonyms)."""
+    from translators import c16_levels as L
+    hdr = """From Coq Require Import String Bool ZArith QArith List.
+From Splinkv Require Import Base.TV Model.SqlExpr Model.Levels Model.Backends.
+Import ListNotations. Open Scope string_scope.
+"""
+    terms, metas = [], []
+    excluded = {}
+    untranslated = set()
+    for inst in L.level_grid(ctx.tier):
+        trees = {}
+        for d in ("duckdb", "sqlite", "spark"):
+            try:
+                trees[d] = (L.parse_sql(L.current_sql(inst, d), d), L.current_sql(inst, d))
+            except (ValueError, NotImplementedError):
+                continue
+            except L.Untranslatable as e:
+                ctx.obligation(f"translate {inst.key} on {d}", False, str(e)[:200])
+                if (inst.family, d) in untranslated:
+                    continue
+                untranslated.add((inst.family, d))
+                ctx.violation(f"{inst.family}: the SQL emitted for {d} leaves the fragment every dialect's SQL of this creator is in: {str(e)[:150]}",
+                              {"case": {"level": inst.key, "dialect": d, "sql": L.current_sql(inst, d)},
+                               "implementation": str(e)[:300], "specification": "same expression shape as the other dialects"},
+                              {"dialect": d, "level": inst.family, "sql_level": True})
+        for other in ("sqlite", "spark"):
+            if "duckdb" not in trees or other not in trees:
+                continue
+            # documented dialect differences that are not function-name synonyms
+            if inst.kind == "timediff" and inst.meta["is_string"]:
+                excluded[f"{other}:{inst.family}"] = "date format strings and parse functions differ by dialect (strptime vs Java patterns)"
+                continue
+            if inst.kind == "literal" and inst.meta["type"] == "date" and other == "sqlite":
+                excluded[f"{other}:{inst.family}:date"] = "SQLite has no DATE type: DATE('..') instead of CAST('..' AS DATE)"
+                continue
+            if inst.kind == "null_pattern":
+                excluded[f"{other}:{inst.family}:pattern"] = "regex dialects are not compared"
+                continue
+            terms.append(f"({L.coq_expr(trees['duckdb'][0])}, {L.coq_expr(trees[other][0])})")
+            metas.append((inst, other, trees["duckdb"][1], trees[other][1]))
+            ctx.count_case(("sql_level", inst.key, other), True, {"level": inst.key, "duckdb": " ".join(trees["duckdb"][1].split())[:120],
+                                                                  other: " ".join(trees[other][1].split())[:120]})
+            ctx.hist("sql_level_pairs", f"duckdb~{other}:{inst.family}")
+    bad, errs = ctx.eval_cases("C06_sql", hdr, terms, "fun c => same_modulo synonyms (fst c) (snd c)", shard=150, timeout=600)
+    for e in errs:
+        ctx.obligation("sql-level shard", False, e)
+    ctx.obligations += len(terms)
+    ctx.discharged += (len(terms) - len(bad)) if not errs else 0
+    ctx.cov["sql_level_obligations"] = len(terms)
+    ctx.cov["sql_level_excluded_by_design"] = excluded
+    seen = set()
+    for k in bad:
+        inst, other, s0, s1 = metas[k]
+        if (inst.family, other) in seen:
+            continue
+        seen.add((inst.family, other))
+        ctx.violation(f"{inst.family}: the SQL emitted for duckdb and {other} differs beyond function-name synonyms",
+                      {"case": {"level": inst.key, "constructor_meta": inst.meta, "duckdb_sql": s0, f"{other}_sql": s1},
+                       "implementation": {"duckdb": " ".join(s0.split()), other: " ".join(s1.split())},
+                       "specification": "same expression after strip, modulo the verified synonym table (Model/Backends.v synonyms)"},
+                      {"dialect": other, "level": inst.family, "sql_level": True})
+    if errs:
+        ctx.violation("sql-level obligations could not be evaluated", {"broken": "C06_sql shards"}, found_input=False)
+
+
 def run(ctx: Ctx):
     ctx.cov["rule"] = ("T: one table row per (dialect, metric role). X: seeded pipelines (random link type, 1-2 tables of 18-30 rows drawn "
                        "from a small entity pool with typos/NULLs, 2-4 comparison creators both engines accept, 1-3 blocking rules, prior "
@@ -76,6 +144,7 @@ def run(ctx: Ctx):
                                      ["splink/internals/dialects.py", "splink/internals/sqlite/database_api.py",
                                       "splink/internals/comparison_level_library.py", "splink/internals/duckdb/database_api.py"]}
     table_stage(ctx, ["duckdb", "sqlite"])
+    sql_level_stage(ctx)
     from harness import c06_x
     c06_x.correspondence(ctx, ["duckdb", "sqlite"])
     if not ctx.quick:
